@@ -86,9 +86,18 @@
 (*      after the old incarnation is gone it unloads the next one, with    *)
 (*      its sessions attached.                                             *)
 (*  DEV_InactiveByeIgnored   a terminating session's unregister reaching   *)
-(*      a paused/deleted topic is ignored (topic.go 704-709); harmless     *)
-(*      while the topic then exits (kept TRUE = as built in all runs       *)
-(*      unless stated; FALSE removes the session anyway).                  *)
+(*      a paused/deleted topic is ignored (handleLeaveRequest returns on   *)
+(*      isInactive before remSession).  Harmless while the topic then      *)
+(*      exits; but when the owner's {del topic} FAILS in the store the     *)
+(*      topic is un-paused and lives on with the dead session attached     *)
+(*      and counted online (reproduced by E2 with a Topics.Delete fault).  *)
+(*  DEV_DeleteFailLeavesPaused  NOT in the code (hub.go topicUnreg calls   *)
+(*      t.markPaused(false) when store.Topics.Delete fails): the bad       *)
+(*      variant, kept to show that the design check sees a topic left      *)
+(*      paused for good (NoTopicLeftPaused).                               *)
+(* Store faults (FaultBudget): a topic load fails (topicInit), the         *)
+(* owner's delete fails in the store (hub: 500, topic un-paused, stays),   *)
+(* a {leave unsub} fails in the store (500, session stays attached).       *)
 (***************************************************************************)
 EXTENDS Integers, Sequences, FiniteSets, TLC
 
@@ -96,7 +105,7 @@ CONSTANTS Sessions, Names, MaxGen, MaxReq, TotalReq, Ops, CapHub,
           EvictBudget, SlowBudget, FaultBudget, AllowRefuse, DelByAnyone,
           DEV_ExitAbandonsQueues, DEV_InitDrainNilDone, DEV_InitDeletedSilent,
           DEV_InitFailBlindTopicDel, DEV_OwnerDelViaMetaSilent, DEV_PurgeRacesWriter,
-          DEV_StaleTimeoutUnreg, DEV_InactiveByeIgnored
+          DEV_StaleTimeoutUnreg, DEV_InactiveByeIgnored, DEV_DeleteFailLeavesPaused
 
 Owner(n) == IF n = "t1" THEN "s1" ELSE "s2"
 
@@ -242,7 +251,7 @@ w0: while (~wdone[wme]) {
 
 \* ------------------------------------------------------------------ hub
 fair process (Hub \in {HubId})
-variables hi = NoInst;
+variables hi = NoInst, hd = NoMsg;
 {
 h0: while (TRUE) {
       either {                                                     \* case join := <-h.join
@@ -265,9 +274,8 @@ h0: while (TRUE) {
           hubUnreg := Tail(hubUnreg);
           if (hm.k = "del") {                                      \* topicUnreg(reason = StopDeleted)
             if (hubMap[hm.n] # 0) {
-              if (ownerKnown[Cur(hm.n)] /\ Owner(hm.n) = hm.s) {   \* 1.1.1 owner, topic online
-                paused[Cur(hm.n)] := TRUE; deleted[Cur(hm.n)] := TRUE; exists[hm.n] := FALSE;
-                Reply(hm.s, hm.id); hi := Cur(hm.n); hubMap[hm.n] := 0
+              if (ownerKnown[Cur(hm.n)] /\ Owner(hm.n) = hm.s) {   \* 1.1.1 owner, topic online: markPaused(true) ...
+                paused[Cur(hm.n)] := TRUE; hd := hm
               } else {                                             \* 1.1.2 forwarded to the topic
                 metaQ[Cur(hm.n)] := Append(metaQ[Cur(hm.n)], hm)
               }
@@ -279,6 +287,17 @@ h0: while (TRUE) {
             if (hubMap[hm.n] # 0 /\ (DEV_StaleTimeoutUnreg \/ hubMap[hm.n] = hm.g)) {
               deleted[Cur(hm.n)] := TRUE; hi := Cur(hm.n); hubMap[hm.n] := 0 }
           }
+        };
+  hd1:  if (hd # NoMsg) {                                          \* ... store.Topics.Delete (the topic runs on, paused, meanwhile)
+          either {
+            deleted[Cur(hd.n)] := TRUE; exists[hd.n] := FALSE;
+            Reply(hd.s, hd.id); hi := Cur(hd.n); hubMap[hd.n] := 0
+          } or {                                                   \* the store refuses: markPaused(false), 500, the topic stays
+            await faultB > 0; faultB := faultB - 1;
+            paused[Cur(hd.n)] := DEV_DeleteFailLeavesPaused;
+            Reply(hd.s, hd.id)
+          };
+          hd := NoMsg
         };
   hx:   if (hi # NoInst) {                                         \* t.exit <- &shutDown{...}, capacity 1
           await Len(exitQ[hi]) < 1;
@@ -340,11 +359,16 @@ t0: while (st[self] = "run") {
           } else if (tm.k = "unsub") {                             \* replyLeaveUnsub
             if (Owner(nm) = tm.s) { Reply(tm.s, tm.id) }           \* 403 owner cannot unsubscribe
             else {
-              Reply(tm.s, tm.id);                                  \* 200, then evictUser(skip = requester)
-              if (tm.s \in sessions[self]) {
-                sessions[self] := sessions[self] \ {tm.s}; online[self][tm.s] := 0;
-                if (~DEV_ExitAbandonsQueues) { subs[tm.s][nm] := 0 }
-                else if (~term[tm.s]) { detachQ[tm.s] := Append(detachQ[tm.s], nm) } } }
+              either {
+                Reply(tm.s, tm.id);                                \* 200, then evictUser(skip = requester)
+                if (tm.s \in sessions[self]) {
+                  sessions[self] := sessions[self] \ {tm.s}; online[self][tm.s] := 0;
+                  if (~DEV_ExitAbandonsQueues) { subs[tm.s][nm] := 0 }
+                  else if (~term[tm.s]) { detachQ[tm.s] := Append(detachQ[tm.s], nm) } }
+              } or {                                               \* store.Subs.Delete fails: 500, nothing changes
+                await faultB > 0; faultB := faultB - 1;
+                Reply(tm.s, tm.id)
+              } }
           } else if (tm.s \in sessions[self]) {                    \* leave, or whole session dropped (bye)
             sessions[self] := sessions[self] \ {tm.s};
             subs[tm.s][nm] := 0;                                   \* sess.delSub(t.name)
@@ -430,13 +454,13 @@ RECURSIVE SumF(_, _)
 SumF(f, S) == IF S = {} THEN 0 ELSE LET x == CHOOSE x \in S : TRUE IN f[x] + SumF(f, S \ {x})
 MayAsk(s) == nreq[s] < MaxReq /\ SumF(nreq, Sessions) < TotalReq
 
-VARIABLES rme, rq, tg, wme, hi, nm, gen, jm
+VARIABLES rme, rq, tg, wme, hi, hd, nm, gen, jm
 
 vars == << pc, subs, sem, inflNil, term, registry, wdone, slow, detachQ, 
            stopQ, pending, nreq, hubJoin, hubUnreg, hubMap, nextGen, exists, 
            st, paused, deleted, ownerKnown, sessions, online, timer, regQ, 
            unregQ, cliQ, metaQ, exitQ, joinMsg, evictB, slowB, faultB, bad, 
-           wgPanic, rme, rq, tg, wme, hi, nm, gen, jm >>
+           wgPanic, rme, rq, tg, wme, hi, hd, nm, gen, jm >>
 
 ProcSet == (RD) \cup (WR) \cup ({HubId}) \cup (Instances)
 
@@ -483,6 +507,7 @@ Init == (* Global variables *)
         /\ wme = [self \in WR |-> self[2]]
         (* Process Hub *)
         /\ hi = [self \in {HubId} |-> NoInst]
+        /\ hd = [self \in {HubId} |-> NoMsg]
         (* Process Inst *)
         /\ nm = [self \in Instances |-> self[2]]
         /\ gen = [self \in Instances |-> self[3]]
@@ -522,7 +547,7 @@ r0(self) == /\ pc[self] = "r0"
                             exists, st, paused, deleted, ownerKnown, sessions, 
                             online, timer, regQ, unregQ, cliQ, metaQ, exitQ, 
                             joinMsg, evictB, slowB, faultB, bad, wgPanic, rme, 
-                            tg, wme, hi, nm, gen, jm >>
+                            tg, wme, hi, hd, nm, gen, jm >>
 
 rs1(self) == /\ pc[self] = "rs1"
              /\ sem[rme[self]] = 0
@@ -542,7 +567,7 @@ rs1(self) == /\ pc[self] = "rs1"
                              exists, st, paused, deleted, ownerKnown, sessions, 
                              online, timer, regQ, unregQ, cliQ, metaQ, exitQ, 
                              joinMsg, evictB, slowB, faultB, bad, wgPanic, rme, 
-                             tg, wme, hi, nm, gen, jm >>
+                             tg, wme, hi, hd, nm, gen, jm >>
 
 rl1(self) == /\ pc[self] = "rl1"
              /\ sem[rme[self]] = 0
@@ -568,7 +593,7 @@ rl1(self) == /\ pc[self] = "rl1"
                              nextGen, exists, st, paused, deleted, ownerKnown, 
                              sessions, online, timer, regQ, cliQ, metaQ, exitQ, 
                              joinMsg, evictB, slowB, faultB, bad, wgPanic, rme, 
-                             wme, hi, nm, gen, jm >>
+                             wme, hi, hd, nm, gen, jm >>
 
 rl3(self) == /\ pc[self] = "rl3"
              /\ unregQ' = [unregQ EXCEPT ![<<"T", rq[self].n, tg[self]>>] = Append(unregQ[<<"T", rq[self].n, tg[self]>>], rq[self])]
@@ -580,7 +605,7 @@ rl3(self) == /\ pc[self] = "rl3"
                              hubMap, nextGen, exists, st, paused, deleted, 
                              ownerKnown, sessions, online, timer, regQ, cliQ, 
                              metaQ, exitQ, joinMsg, evictB, slowB, faultB, bad, 
-                             wgPanic, rme, wme, hi, nm, gen, jm >>
+                             wgPanic, rme, wme, hi, hd, nm, gen, jm >>
 
 rp1(self) == /\ pc[self] = "rp1"
              /\ LET g == subs[rme[self]][rq[self].n] IN
@@ -601,7 +626,7 @@ rp1(self) == /\ pc[self] = "rp1"
                              hubMap, nextGen, exists, st, paused, deleted, 
                              ownerKnown, sessions, online, timer, regQ, unregQ, 
                              metaQ, exitQ, joinMsg, evictB, slowB, faultB, bad, 
-                             wgPanic, rme, wme, hi, nm, gen, jm >>
+                             wgPanic, rme, wme, hi, hd, nm, gen, jm >>
 
 rp2(self) == /\ pc[self] = "rp2"
              /\ cliQ' = [cliQ EXCEPT ![<<"T", rq[self].n, tg[self]>>] = Append(cliQ[<<"T", rq[self].n, tg[self]>>], rq[self])]
@@ -613,7 +638,7 @@ rp2(self) == /\ pc[self] = "rp2"
                              hubMap, nextGen, exists, st, paused, deleted, 
                              ownerKnown, sessions, online, timer, regQ, unregQ, 
                              metaQ, exitQ, joinMsg, evictB, slowB, faultB, bad, 
-                             wgPanic, rme, wme, hi, nm, gen, jm >>
+                             wgPanic, rme, wme, hi, hd, nm, gen, jm >>
 
 rd1(self) == /\ pc[self] = "rd1"
              /\ IF Len(hubUnreg) < CapHub
@@ -628,7 +653,7 @@ rd1(self) == /\ pc[self] = "rd1"
                              exists, st, paused, deleted, ownerKnown, sessions, 
                              online, timer, regQ, unregQ, cliQ, metaQ, exitQ, 
                              joinMsg, evictB, slowB, faultB, bad, wgPanic, rme, 
-                             tg, wme, hi, nm, gen, jm >>
+                             tg, wme, hi, hd, nm, gen, jm >>
 
 cu1(self) == /\ pc[self] = "cu1"
              /\ term' = [term EXCEPT ![rme[self]] = TRUE]
@@ -638,8 +663,8 @@ cu1(self) == /\ pc[self] = "cu1"
                              hubMap, nextGen, exists, st, paused, deleted, 
                              ownerKnown, sessions, online, timer, regQ, unregQ, 
                              cliQ, metaQ, exitQ, joinMsg, evictB, slowB, 
-                             faultB, bad, wgPanic, rme, rq, tg, wme, hi, nm, 
-                             gen, jm >>
+                             faultB, bad, wgPanic, rme, rq, tg, wme, hi, hd, 
+                             nm, gen, jm >>
 
 cp1(self) == /\ pc[self] = "cp1"
              /\ IF ~DEV_PurgeRacesWriter
@@ -655,7 +680,7 @@ cp1(self) == /\ pc[self] = "cp1"
                              exists, st, paused, deleted, ownerKnown, sessions, 
                              online, timer, regQ, unregQ, cliQ, metaQ, exitQ, 
                              joinMsg, evictB, slowB, faultB, bad, wgPanic, rme, 
-                             rq, tg, wme, hi, nm, gen, jm >>
+                             rq, tg, wme, hi, hd, nm, gen, jm >>
 
 cp2(self) == /\ pc[self] = "cp2"
              /\ detachQ[rme[self]] # <<>>
@@ -666,7 +691,7 @@ cp2(self) == /\ pc[self] = "cp2"
                              nextGen, exists, st, paused, deleted, ownerKnown, 
                              sessions, online, timer, regQ, unregQ, cliQ, 
                              metaQ, exitQ, joinMsg, evictB, slowB, faultB, bad, 
-                             wgPanic, rme, rq, tg, wme, hi, nm, gen, jm >>
+                             wgPanic, rme, rq, tg, wme, hi, hd, nm, gen, jm >>
 
 cp3(self) == /\ pc[self] = "cp3"
              /\ IF stopQ[rme[self]] = 0
@@ -677,8 +702,8 @@ cp3(self) == /\ pc[self] = "cp3"
                              hubMap, nextGen, exists, st, paused, deleted, 
                              ownerKnown, sessions, online, timer, regQ, unregQ, 
                              cliQ, metaQ, exitQ, joinMsg, evictB, slowB, 
-                             faultB, bad, wgPanic, rme, rq, tg, wme, hi, nm, 
-                             gen, jm >>
+                             faultB, bad, wgPanic, rme, rq, tg, wme, hi, hd, 
+                             nm, gen, jm >>
 
 cp4(self) == /\ pc[self] = "cp4"
              /\ stopQ[rme[self]] > 0
@@ -689,7 +714,7 @@ cp4(self) == /\ pc[self] = "cp4"
                              nextGen, exists, st, paused, deleted, ownerKnown, 
                              sessions, online, timer, regQ, unregQ, cliQ, 
                              metaQ, exitQ, joinMsg, evictB, slowB, faultB, bad, 
-                             wgPanic, rme, rq, tg, wme, hi, nm, gen, jm >>
+                             wgPanic, rme, rq, tg, wme, hi, hd, nm, gen, jm >>
 
 cu2(self) == /\ pc[self] = "cu2"
              /\ sem[rme[self]] = 0
@@ -703,7 +728,7 @@ cu2(self) == /\ pc[self] = "cu2"
                              exists, st, paused, deleted, ownerKnown, sessions, 
                              online, timer, regQ, cliQ, metaQ, exitQ, joinMsg, 
                              evictB, slowB, faultB, bad, wgPanic, rme, rq, tg, 
-                             wme, hi, nm, gen, jm >>
+                             wme, hi, hd, nm, gen, jm >>
 
 cu5(self) == /\ pc[self] = "cu5"
              /\ stopQ[rme[self]] = 0
@@ -714,7 +739,7 @@ cu5(self) == /\ pc[self] = "cu5"
                              nextGen, exists, st, paused, deleted, ownerKnown, 
                              sessions, online, timer, regQ, unregQ, cliQ, 
                              metaQ, exitQ, joinMsg, evictB, slowB, faultB, bad, 
-                             wgPanic, rme, rq, tg, wme, hi, nm, gen, jm >>
+                             wgPanic, rme, rq, tg, wme, hi, hd, nm, gen, jm >>
 
 Reader(self) == r0(self) \/ rs1(self) \/ rl1(self) \/ rl3(self)
                    \/ rp1(self) \/ rp2(self) \/ rd1(self) \/ cu1(self)
@@ -747,7 +772,7 @@ w0(self) == /\ pc[self] = "w0"
                             paused, deleted, ownerKnown, sessions, online, 
                             timer, regQ, unregQ, cliQ, metaQ, exitQ, joinMsg, 
                             evictB, faultB, bad, wgPanic, rme, rq, tg, wme, hi, 
-                            nm, gen, jm >>
+                            hd, nm, gen, jm >>
 
 Writer(self) == w0(self)
 
@@ -781,7 +806,7 @@ h0(self) == /\ pc[self] = "h0"
                                   /\ UNCHANGED << hubMap, nextGen, st, paused, 
                                                   joinMsg >>
                   /\ pc' = [pc EXCEPT ![self] = "h0"]
-                  /\ UNCHANGED <<hubUnreg, exists, deleted, metaQ, hi>>
+                  /\ UNCHANGED <<hubUnreg, exists, deleted, metaQ, hi, hd>>
                \/ /\ hubUnreg # <<>>
                   /\ LET hm == Head(hubUnreg) IN
                        /\ hubUnreg' = Tail(hubUnreg)
@@ -789,27 +814,19 @@ h0(self) == /\ pc[self] = "h0"
                              THEN /\ IF hubMap[hm.n] # 0
                                         THEN /\ IF ownerKnown[Cur(hm.n)] /\ Owner(hm.n) = hm.s
                                                    THEN /\ paused' = [paused EXCEPT ![Cur(hm.n)] = TRUE]
-                                                        /\ deleted' = [deleted EXCEPT ![Cur(hm.n)] = TRUE]
-                                                        /\ exists' = [exists EXCEPT ![hm.n] = FALSE]
-                                                        /\ pending' = Ans(pending, (hm.s), (hm.id))
-                                                        /\ hi' = [hi EXCEPT ![self] = Cur(hm.n)]
-                                                        /\ hubMap' = [hubMap EXCEPT ![hm.n] = 0]
+                                                        /\ hd' = [hd EXCEPT ![self] = hm]
                                                         /\ metaQ' = metaQ
                                                    ELSE /\ metaQ' = [metaQ EXCEPT ![Cur(hm.n)] = Append(metaQ[Cur(hm.n)], hm)]
-                                                        /\ UNCHANGED << pending, 
-                                                                        hubMap, 
-                                                                        exists, 
-                                                                        paused, 
-                                                                        deleted, 
-                                                                        hi >>
+                                                        /\ UNCHANGED << paused, 
+                                                                        hd >>
+                                             /\ UNCHANGED << pending, exists >>
                                         ELSE /\ IF Owner(hm.n) = hm.s
                                                    THEN /\ exists' = [exists EXCEPT ![hm.n] = FALSE]
                                                    ELSE /\ TRUE
                                                         /\ UNCHANGED exists
                                              /\ pending' = Ans(pending, (hm.s), (hm.id))
-                                             /\ UNCHANGED << hubMap, paused, 
-                                                             deleted, metaQ, 
-                                                             hi >>
+                                             /\ UNCHANGED << paused, metaQ, hd >>
+                                  /\ UNCHANGED << hubMap, deleted, hi >>
                              ELSE /\ IF hubMap[hm.n] # 0 /\ (DEV_StaleTimeoutUnreg \/ hubMap[hm.n] = hm.g)
                                         THEN /\ deleted' = [deleted EXCEPT ![Cur(hm.n)] = TRUE]
                                              /\ hi' = [hi EXCEPT ![self] = Cur(hm.n)]
@@ -818,13 +835,38 @@ h0(self) == /\ pc[self] = "h0"
                                              /\ UNCHANGED << hubMap, deleted, 
                                                              hi >>
                                   /\ UNCHANGED << pending, exists, paused, 
-                                                  metaQ >>
-                  /\ pc' = [pc EXCEPT ![self] = "hx"]
+                                                  metaQ, hd >>
+                  /\ pc' = [pc EXCEPT ![self] = "hd1"]
                   /\ UNCHANGED <<sem, hubJoin, nextGen, st, regQ, joinMsg, wgPanic>>
             /\ UNCHANGED << subs, inflNil, term, registry, wdone, slow, 
                             detachQ, stopQ, nreq, ownerKnown, sessions, online, 
                             timer, unregQ, cliQ, exitQ, evictB, slowB, faultB, 
                             bad, rme, rq, tg, wme, nm, gen, jm >>
+
+hd1(self) == /\ pc[self] = "hd1"
+             /\ IF hd[self] # NoMsg
+                   THEN /\ \/ /\ deleted' = [deleted EXCEPT ![Cur(hd[self].n)] = TRUE]
+                              /\ exists' = [exists EXCEPT ![hd[self].n] = FALSE]
+                              /\ pending' = Ans(pending, (hd[self].s), (hd[self].id))
+                              /\ hi' = [hi EXCEPT ![self] = Cur(hd[self].n)]
+                              /\ hubMap' = [hubMap EXCEPT ![hd[self].n] = 0]
+                              /\ UNCHANGED <<paused, faultB>>
+                           \/ /\ faultB > 0
+                              /\ faultB' = faultB - 1
+                              /\ paused' = [paused EXCEPT ![Cur(hd[self].n)] = DEV_DeleteFailLeavesPaused]
+                              /\ pending' = Ans(pending, (hd[self].s), (hd[self].id))
+                              /\ UNCHANGED <<hubMap, exists, deleted, hi>>
+                        /\ hd' = [hd EXCEPT ![self] = NoMsg]
+                   ELSE /\ TRUE
+                        /\ UNCHANGED << pending, hubMap, exists, paused, 
+                                        deleted, faultB, hi, hd >>
+             /\ pc' = [pc EXCEPT ![self] = "hx"]
+             /\ UNCHANGED << subs, sem, inflNil, term, registry, wdone, slow, 
+                             detachQ, stopQ, nreq, hubJoin, hubUnreg, nextGen, 
+                             st, ownerKnown, sessions, online, timer, regQ, 
+                             unregQ, cliQ, metaQ, exitQ, joinMsg, evictB, 
+                             slowB, bad, wgPanic, rme, rq, tg, wme, nm, gen, 
+                             jm >>
 
 hx(self) == /\ pc[self] = "hx"
             /\ IF hi[self] # NoInst
@@ -839,9 +881,9 @@ hx(self) == /\ pc[self] = "hx"
                             hubMap, nextGen, exists, st, paused, deleted, 
                             ownerKnown, sessions, online, timer, regQ, unregQ, 
                             cliQ, metaQ, joinMsg, evictB, slowB, faultB, bad, 
-                            wgPanic, rme, rq, tg, wme, nm, gen, jm >>
+                            wgPanic, rme, rq, tg, wme, hd, nm, gen, jm >>
 
-Hub(self) == h0(self) \/ hx(self)
+Hub(self) == h0(self) \/ hd1(self) \/ hx(self)
 
 i0(self) == /\ pc[self] = "i0"
             /\ st[self] = "init"
@@ -861,7 +903,7 @@ i0(self) == /\ pc[self] = "i0"
                             hubMap, nextGen, exists, st, paused, deleted, 
                             ownerKnown, sessions, online, timer, regQ, unregQ, 
                             cliQ, metaQ, exitQ, evictB, slowB, bad, wgPanic, 
-                            rme, rq, tg, wme, hi, nm, gen >>
+                            rme, rq, tg, wme, hi, hd, nm, gen >>
 
 if1(self) == /\ pc[self] = "if1"
              /\ IF DEV_InitFailBlindTopicDel \/ hubMap[nm[self]] = gen[self]
@@ -875,7 +917,7 @@ if1(self) == /\ pc[self] = "if1"
                              exists, st, paused, deleted, ownerKnown, sessions, 
                              online, timer, regQ, unregQ, cliQ, metaQ, exitQ, 
                              joinMsg, evictB, slowB, faultB, bad, wgPanic, rme, 
-                             rq, tg, wme, hi, nm, gen, jm >>
+                             rq, tg, wme, hi, hd, nm, gen, jm >>
 
 if2(self) == /\ pc[self] = "if2"
              /\ IF regQ[self] # <<>>
@@ -890,7 +932,7 @@ if2(self) == /\ pc[self] = "if2"
                              nextGen, exists, st, paused, deleted, ownerKnown, 
                              sessions, online, timer, unregQ, cliQ, metaQ, 
                              exitQ, joinMsg, evictB, slowB, faultB, bad, 
-                             wgPanic, rme, rq, tg, wme, hi, nm, gen, jm >>
+                             wgPanic, rme, rq, tg, wme, hi, hd, nm, gen, jm >>
 
 if3(self) == /\ pc[self] = "if3"
              /\ pending' = AnsAll(AnsAll(AnsAll(pending, cliQ[self]), unregQ[self]), metaQ[self])
@@ -911,7 +953,7 @@ if3(self) == /\ pc[self] = "if3"
                              nextGen, exists, paused, deleted, ownerKnown, 
                              sessions, online, timer, regQ, joinMsg, evictB, 
                              slowB, faultB, bad, wgPanic, rme, rq, tg, wme, hi, 
-                             nm, gen >>
+                             hd, nm, gen >>
 
 iok(self) == /\ pc[self] = "iok"
              /\ IF deleted[self]
@@ -943,7 +985,8 @@ iok(self) == /\ pc[self] = "iok"
                              detachQ, stopQ, nreq, hubJoin, hubUnreg, hubMap, 
                              nextGen, exists, deleted, sessions, online, timer, 
                              unregQ, cliQ, metaQ, exitQ, joinMsg, evictB, 
-                             slowB, faultB, bad, rme, rq, tg, wme, hi, nm, gen >>
+                             slowB, faultB, bad, rme, rq, tg, wme, hi, hd, nm, 
+                             gen >>
 
 t0(self) == /\ pc[self] = "t0"
             /\ IF st[self] = "run"
@@ -981,7 +1024,7 @@ t0(self) == /\ pc[self] = "t0"
                                         ELSE /\ TRUE
                                              /\ UNCHANGED << sem, wgPanic >>
                              /\ pc' = [pc EXCEPT ![self] = "t0"]
-                             /\ UNCHANGED <<detachQ, st, unregQ, cliQ, metaQ, exitQ, evictB>>
+                             /\ UNCHANGED <<detachQ, st, unregQ, cliQ, metaQ, exitQ, evictB, faultB>>
                           \/ /\ unregQ[self] # <<>>
                              /\ LET tm == Head(unregQ[self]) IN
                                   /\ unregQ' = [unregQ EXCEPT ![self] = Tail(unregQ[self])]
@@ -991,31 +1034,38 @@ t0(self) == /\ pc[self] = "t0"
                                                    ELSE /\ TRUE
                                                         /\ UNCHANGED pending
                                              /\ UNCHANGED << subs, detachQ, 
-                                                             sessions, online >>
+                                                             sessions, online, 
+                                                             faultB >>
                                         ELSE /\ IF tm.k = "unsub"
                                                    THEN /\ IF Owner(nm[self]) = tm.s
                                                               THEN /\ pending' = Ans(pending, (tm.s), (tm.id))
                                                                    /\ UNCHANGED << subs, 
                                                                                    detachQ, 
                                                                                    sessions, 
-                                                                                   online >>
-                                                              ELSE /\ pending' = Ans(pending, (tm.s), (tm.id))
-                                                                   /\ IF tm.s \in sessions[self]
-                                                                         THEN /\ sessions' = [sessions EXCEPT ![self] = sessions[self] \ {tm.s}]
-                                                                              /\ online' = [online EXCEPT ![self][tm.s] = 0]
-                                                                              /\ IF ~DEV_ExitAbandonsQueues
-                                                                                    THEN /\ subs' = [subs EXCEPT ![tm.s][nm[self]] = 0]
-                                                                                         /\ UNCHANGED detachQ
-                                                                                    ELSE /\ IF ~term[tm.s]
-                                                                                               THEN /\ detachQ' = [detachQ EXCEPT ![tm.s] = Append(detachQ[tm.s], nm[self])]
-                                                                                               ELSE /\ TRUE
-                                                                                                    /\ UNCHANGED detachQ
-                                                                                         /\ subs' = subs
-                                                                         ELSE /\ TRUE
-                                                                              /\ UNCHANGED << subs, 
-                                                                                              detachQ, 
-                                                                                              sessions, 
-                                                                                              online >>
+                                                                                   online, 
+                                                                                   faultB >>
+                                                              ELSE /\ \/ /\ pending' = Ans(pending, (tm.s), (tm.id))
+                                                                         /\ IF tm.s \in sessions[self]
+                                                                               THEN /\ sessions' = [sessions EXCEPT ![self] = sessions[self] \ {tm.s}]
+                                                                                    /\ online' = [online EXCEPT ![self][tm.s] = 0]
+                                                                                    /\ IF ~DEV_ExitAbandonsQueues
+                                                                                          THEN /\ subs' = [subs EXCEPT ![tm.s][nm[self]] = 0]
+                                                                                               /\ UNCHANGED detachQ
+                                                                                          ELSE /\ IF ~term[tm.s]
+                                                                                                     THEN /\ detachQ' = [detachQ EXCEPT ![tm.s] = Append(detachQ[tm.s], nm[self])]
+                                                                                                     ELSE /\ TRUE
+                                                                                                          /\ UNCHANGED detachQ
+                                                                                               /\ subs' = subs
+                                                                               ELSE /\ TRUE
+                                                                                    /\ UNCHANGED << subs, 
+                                                                                                    detachQ, 
+                                                                                                    sessions, 
+                                                                                                    online >>
+                                                                         /\ UNCHANGED faultB
+                                                                      \/ /\ faultB > 0
+                                                                         /\ faultB' = faultB - 1
+                                                                         /\ pending' = Ans(pending, (tm.s), (tm.id))
+                                                                         /\ UNCHANGED <<subs, detachQ, sessions, online>>
                                                    ELSE /\ IF tm.s \in sessions[self]
                                                               THEN /\ sessions' = [sessions EXCEPT ![self] = sessions[self] \ {tm.s}]
                                                                    /\ subs' = [subs EXCEPT ![tm.s][nm[self]] = 0]
@@ -1029,7 +1079,8 @@ t0(self) == /\ pc[self] = "t0"
                                                                                    pending, 
                                                                                    sessions, 
                                                                                    online >>
-                                                        /\ UNCHANGED detachQ
+                                                        /\ UNCHANGED << detachQ, 
+                                                                        faultB >>
                                   /\ IF tm.k # "bye"
                                         THEN /\ IF ~inflNil[(tm.s)]
                                                    THEN /\ IF sem[(tm.s)] = 0
@@ -1066,7 +1117,7 @@ t0(self) == /\ pc[self] = "t0"
                                                              online, timer, 
                                                              bad >>
                              /\ pc' = [pc EXCEPT ![self] = "t0"]
-                             /\ UNCHANGED <<sem, detachQ, pending, st, regQ, unregQ, metaQ, exitQ, evictB, wgPanic>>
+                             /\ UNCHANGED <<sem, detachQ, pending, st, regQ, unregQ, metaQ, exitQ, evictB, faultB, wgPanic>>
                           \/ /\ metaQ[self] # <<>>
                              /\ LET tm == Head(metaQ[self]) IN
                                   /\ metaQ' = [metaQ EXCEPT ![self] = Tail(metaQ[self])]
@@ -1101,7 +1152,7 @@ t0(self) == /\ pc[self] = "t0"
                                                                         online, 
                                                                         timer >>
                              /\ pc' = [pc EXCEPT ![self] = "t0"]
-                             /\ UNCHANGED <<sem, st, regQ, unregQ, cliQ, exitQ, evictB, bad, wgPanic>>
+                             /\ UNCHANGED <<sem, st, regQ, unregQ, cliQ, exitQ, evictB, faultB, bad, wgPanic>>
                           \/ /\ evictB > 0 /\ ~Inactive(self) /\ sessions[self] # {}
                              /\ \E s \in sessions[self]:
                                   /\ evictB' = evictB - 1
@@ -1117,11 +1168,11 @@ t0(self) == /\ pc[self] = "t0"
                                                         /\ UNCHANGED detachQ
                                              /\ subs' = subs
                              /\ pc' = [pc EXCEPT ![self] = "t0"]
-                             /\ UNCHANGED <<sem, st, timer, regQ, unregQ, cliQ, metaQ, exitQ, bad, wgPanic>>
+                             /\ UNCHANGED <<sem, st, timer, regQ, unregQ, cliQ, metaQ, exitQ, faultB, bad, wgPanic>>
                           \/ /\ timer[self]
                              /\ timer' = [timer EXCEPT ![self] = FALSE]
                              /\ pc' = [pc EXCEPT ![self] = "tk"]
-                             /\ UNCHANGED <<subs, sem, detachQ, pending, st, sessions, online, regQ, unregQ, cliQ, metaQ, exitQ, evictB, bad, wgPanic>>
+                             /\ UNCHANGED <<subs, sem, detachQ, pending, st, sessions, online, regQ, unregQ, cliQ, metaQ, exitQ, evictB, faultB, bad, wgPanic>>
                           \/ /\ exitQ[self] # <<>>
                              /\ exitQ' = [exitQ EXCEPT ![self] = Tail(exitQ[self])]
                              /\ IF DEV_ExitAbandonsQueues
@@ -1142,16 +1193,16 @@ t0(self) == /\ pc[self] = "t0"
                              /\ timer' = [timer EXCEPT ![self] = FALSE]
                              /\ st' = [st EXCEPT ![self] = "dead"]
                              /\ pc' = [pc EXCEPT ![self] = "t0"]
-                             /\ UNCHANGED <<online, evictB, bad, wgPanic>>
+                             /\ UNCHANGED <<online, evictB, faultB, bad, wgPanic>>
                   ELSE /\ pc' = [pc EXCEPT ![self] = "idead"]
                        /\ UNCHANGED << subs, sem, detachQ, pending, st, 
                                        sessions, online, timer, regQ, unregQ, 
-                                       cliQ, metaQ, exitQ, evictB, bad, 
+                                       cliQ, metaQ, exitQ, evictB, faultB, bad, 
                                        wgPanic >>
             /\ UNCHANGED << inflNil, term, registry, wdone, slow, stopQ, nreq, 
                             hubJoin, hubUnreg, hubMap, nextGen, exists, paused, 
-                            deleted, ownerKnown, joinMsg, slowB, faultB, rme, 
-                            rq, tg, wme, hi, nm, gen, jm >>
+                            deleted, ownerKnown, joinMsg, slowB, rme, rq, tg, 
+                            wme, hi, hd, nm, gen, jm >>
 
 tk(self) == /\ pc[self] = "tk"
             /\ Len(hubUnreg) < CapHub
@@ -1162,7 +1213,7 @@ tk(self) == /\ pc[self] = "tk"
                             nextGen, exists, st, paused, deleted, ownerKnown, 
                             sessions, online, timer, regQ, unregQ, cliQ, metaQ, 
                             exitQ, joinMsg, evictB, slowB, faultB, bad, 
-                            wgPanic, rme, rq, tg, wme, hi, nm, gen, jm >>
+                            wgPanic, rme, rq, tg, wme, hi, hd, nm, gen, jm >>
 
 idead(self) == /\ pc[self] = "idead"
                /\ TRUE
@@ -1173,7 +1224,7 @@ idead(self) == /\ pc[self] = "idead"
                                deleted, ownerKnown, sessions, online, timer, 
                                regQ, unregQ, cliQ, metaQ, exitQ, joinMsg, 
                                evictB, slowB, faultB, bad, wgPanic, rme, rq, 
-                               tg, wme, hi, nm, gen, jm >>
+                               tg, wme, hi, hd, nm, gen, jm >>
 
 Inst(self) == i0(self) \/ if1(self) \/ if2(self) \/ if3(self) \/ iok(self)
                  \/ t0(self) \/ tk(self) \/ idead(self)
@@ -1235,6 +1286,8 @@ DeletedTopicRefuses ==
   /\ Quiescent => \A n \in Names : ~exists[n] =>
         /\ hubMap[n] = 0 /\ \A g \in 1..MaxGen : ~Running(<<"T", n, g>>)
         /\ \A s \in Sessions : Live(s) => subs[s][n] = 0
+\* a topic is never left paused for good (later requests would be refused with 503 forever)
+NoTopicLeftPaused == Quiescent => \A i \in Instances : Running(i) => ~paused[i]
 NoOrphanTopic == Quiescent => \A i \in Instances : Running(i) => hubMap[i[2]] = i[3]
 GenBound == \A n \in Names : nextGen[n] <= MaxGen + 1
 =============================================================================
